@@ -322,7 +322,7 @@ type probeRec struct {
 func main() {
 	tsh.Main("C01", "exploration", 12*time.Minute, func(r *vlib.Run) {
 		run = r
-		r.Rule("scripts generated state-aware from the reference model: 4-17 command lines (cd chmod cmp cmpenv cp env exec exists grep kill mkdir mv rm skip stop stdin stdout stderr symlink unquote unix2dos wait, custom commands, background '&' / '&name&', '!' and [cond] prefixes incl. custom and unknown conditions), a chosen first failing line (or none) with a specific failure cause, phases and blank lines, filler lines with visible effects after the end; Params axes ContinueOnError / RequireExplicitExec / RequireUniqueNames / custom Cmds / custom Condition, two T styles (sentinel panic, Goexit), verbose on/off; a probe command after every line records what ran. The same (custom-free) scripts also go through the real cmd/testscript binary, singly and in batches. Non-trivial/distinct = distinct (params, command-kind sequence, verdict, failing lines) signatures.")
+		r.Rule("scripts generated state-aware from the reference model: 4-17 command lines (cd chmod cmp cmpenv cp env exec exists grep kill mkdir mv rm skip stop stdin stdout stderr symlink unquote unix2dos wait, custom commands, background '&' / '&name&', '!' and [cond] prefixes incl. custom and unknown conditions), a chosen first failing line (or none) with a specific failure cause, phases and blank lines, filler lines with visible effects after the end; Params axes ContinueOnError / RequireExplicitExec / RequireUniqueNames / custom Cmds (some under the names of standard commands, which must never be consulted) / custom Condition, two T styles (sentinel panic, Goexit), verbose on/off; a probe command after every line records what ran. The same (custom-free) scripts also go through the real cmd/testscript binary, singly and in batches. Non-trivial/distinct = distinct (params, command-kind sequence, verdict, failing lines) signatures.")
 		r.Assume("only documented behaviour is generated; runs as root (permission bits are compared, not enforced); killing a job that may already have exited, and skip/stop while jobs are outstanding, are not generated (timing dependent / documented differently from what any implementation does)")
 		base := vlib.Scratch()
 		rng := r.Rand("scripts")
@@ -337,6 +337,15 @@ func main() {
 				pr.mu.Unlock()
 			},
 			"okcmd": func(ts *testscript.TestScript, neg bool, args []string) {},
+			// Entries under names of the standard set, or of commands that Main registered: Params.Cmds is
+			// "only consulted for commands not part of the standard set", so none of these is ever run.
+			"exists":  func(ts *testscript.TestScript, neg bool, args []string) {},
+			"stop":    func(ts *testscript.TestScript, neg bool, args []string) {},
+			"grep":    func(ts *testscript.TestScript, neg bool, args []string) {},
+			"mkdir":   func(ts *testscript.TestScript, neg bool, args []string) {},
+			"cmp":     func(ts *testscript.TestScript, neg bool, args []string) { ts.Fatalf("a custom cmp was run") },
+			"wait":    func(ts *testscript.TestScript, neg bool, args []string) {},
+			"vhelper": func(ts *testscript.TestScript, neg bool, args []string) { ts.Fatalf("a custom vhelper was run") },
 			"failcmd": func(ts *testscript.TestScript, neg bool, args []string) {
 				ts.Fatalf("failcmd: %s", strings.Join(args, " "))
 			},
